@@ -22,6 +22,8 @@ type travCase struct {
 
 type travIn struct {
 	Cases []travCase `json:"cases"`
+	// SQLFaults: additionally, every SQL statement of each engine check is made to fail once (C03 on wide nodes)
+	SQLFaults bool `json:"sqlfaults"`
 }
 
 func init() { families["traverse"] = famTraverse }
@@ -121,6 +123,33 @@ func famTraverse(t *testing.T) {
 				}
 			}
 			res["deep"] = deep
+			if in.SQLFaults {
+				for _, sub := range []string{"u", "v", "nobody"} {
+					q := internalTuple(t, reg, &ketoapi.RelationTuple{Namespace: "n", Object: "s", Relation: "r", SubjectID: ptr(sub)})
+					run := func(failAt int) (byte, int) {
+						cctx, cancel := context.WithCancel(ctx)
+						defer cancel()
+						sqlCtl.begin(failAt, 0)
+						r := eng.CheckRelationTuple(cctx, q, 0)
+						n := len(sqlCtl.end())
+						return memCode(r), n
+					}
+					base, n := run(0)
+					codes := []byte{}
+					ks := []int{}
+					// the statements of the root (direct lookup, one per page of subject sets) come first; after
+					// them one statement per child follows: the first 8 and a spread of 6 later ones are failed
+					for k := 1; k <= n; k++ {
+						if k > 8 && (n < 14 || (k-8)%((n-8)/6+1) != 0) {
+							continue
+						}
+						c, _ := run(k)
+						codes = append(codes, c)
+						ks = append(ks, k)
+					}
+					res["sqlbase_"+sub], res["sqlstmts_"+sub], res["sqlfault_"+sub], res["sqlks_"+sub] = string(base), n, string(codes), ks
+				}
+			}
 			out.write(res)
 		})
 	}
